@@ -108,6 +108,25 @@ def tasks_c18(tier, seed):
     return seq("c18", tier, shards=4) + seq("c04", tier, shards=8) + seq("c07", tier, shards=4)
 
 
+QE_SCENS = ["QE0", "QE1-model", "QE1-events", "QE1-error", "QE1-notfound", "QE1-panic", "QE1-nothing", "QE1-timeout", "QE1-twice",
+            "QE2", "QEempty", "QEnopayload", "QEfail", "QEconc", "QEchain"]
+
+
+def tasks_c15(tier, seed):
+    ts = []
+    w1 = "w1-in4-default-direct"
+    for s in QE_SCENS:
+        big = s in ("QE2", "QEconc")
+        if tier == "quick":
+            ts += explore(s, w1, 2, shards=6 if big else 1, timeout="100s")
+            if not big:
+                ts += explore(s, CFG_DEFAULT, 1, shards=1, timeout="60s")
+        else:
+            ts += explore(s, w1, 3, shards=8, timeout="30m")
+            ts += explore(s, CFG_DEFAULT, 2, shards=8, timeout="30m")
+    return ts
+
+
 PLANS = {
     "C01": {"tasks": tasks_c01, "level": "model_checking",
             "assumptions": ["scheduling points = sync/atomic/channel/timer operations of the rewritten packages + harness emits",
@@ -129,6 +148,8 @@ PLANS = {
             "assumptions": ["inputs the documentation leaves undefined ($ inside a tag name, repeated tags) are excluded and counted"]},
     "C18": {"tasks": tasks_c18, "level": "model_checking",
             "assumptions": ["encoding/json generic decoding is the reference for JSON equality", "an explicit soft:false is the same RES value as an absent soft member"]},
+    "C15": {"tasks": tasks_c15, "level": "model_checking",
+            "assumptions": ["virtual clock: a timer may fire at any point relative to other threads", "NATS model: a message accepted before unsubscribe may arrive later or be dropped; nothing is placed on a channel after Unsubscribe returned"]},
     "C03": {"tasks": tasks_c03, "level": "model_checking",
             "assumptions": ["Shutdown is called from outside callbacks", "envnats models the connection"]},
 }
@@ -162,6 +183,9 @@ MANIFEST_TEXT = {
     "C08": {"engine": "seq", "technique": "bounded-exhaustive enumeration of event-call sequences x apply handlers x listener placements x resource types with a global-log reference model",
             "level": "Every sequence of <=3 (4 thorough) event calls over 13 actions in request handlers and With callbacks, with 4 apply-handler modes, 5 listener placements and 3 resource types; one global log of apply/publish/listener steps is compared with a reference log.",
             "note": "Cross-callback ordering on the connection follows from C02 (per-group order) and program order checked here."},
+    "C15": {"engine": E1, "technique": "stateless model checking of the implementation with a virtual clock: preemption-bounded DFS over interleavings of query requests, expiry and callbacks",
+            "level": "Every interleaving (up to the bound) of a query event with 0-2 requesters (valid, empty, missing and malformed queries), every callback behaviour, subscription failure, a concurrent callback of the same group and a chain of three events; the timer fires at any point; responses, nil-call count/order, group serialisation and released resources are checked on every execution.",
+            "note": "The in-memory connection models acceptance/arrival of messages separately; inbox names are canonicalised."},
     "C17": {"engine": "seq", "technique": "bounded-exhaustive enumeration of pattern and name strings over the special-character alphabet against a tokenising reference",
             "level": "Every pattern string of <=5 (6 thorough) characters over 8 symbols against every name of <=5 characters over 5 symbols, all pattern/pattern cover pairs, parts, resource ids, method/event argument checks, tag maps and the id-transformer round trip.",
             "note": "Inputs the documentation leaves undefined are excluded and counted in the evidence."},
